@@ -168,7 +168,8 @@ class Exp:
         W = sum(w)
         g = math.gcd(*list(itertools.accumulate(w))) if W else 1
         self.cls = ('uniform' if weights is None and cum is None else 'weights' if cum is None else 'cum_weights') \
-            + (':total=1' if (weights is not None or cum is not None) and W // g == 1 else '') + (':k=0' if k == 0 else '')
+            + ((':n=1' if n == 1 else ':total=1') if (weights is not None or cum is not None) and W // g == 1 else '') \
+            + (':k=0' if k == 0 else '')
         sup = {}
         for pos in itertools.product(range(n), repeat=k):
             pr = Fraction(1)
@@ -366,8 +367,10 @@ def experiments(tier):
         if t == 'fld8':
             ranges = [(n,) for n in range(1, 9)] + [(0, n, 1) for n in (3, 5, 8)]
         else:
-            ranges = [(a, b, s) for a in range(0, 6) for b in range(a + 1, 7) for s in (1, 2)]
-            ranges += [(b, a, -s) for a in range(0, 6) for b in range(a + 1, 7) for s in (1, 2)]
+            # quick tier: the full square of ranges for SecInt only, a cross-section (start 0 / 3, all stops) for the other types
+            starts = range(0, 6) if not q or t == 'int' else (0, 3)
+            ranges = [(a, b, s) for a in starts for b in range(a + 1, 7) for s in (1, 2)]
+            ranges += [(b, a, -s) for a in starts for b in range(a + 1, 7) for s in (1, 2)]
             ranges += [(n,) for n in range(1, 9 if not fld else 8)] + [(1, 4)]
             if fld:
                 ranges += [(0, 7, 1), (0, 7, 2), (6, -1, -1)]
@@ -378,7 +381,8 @@ def experiments(tier):
         if t != 'fld8':
             for a in range(-2 if not fld else 0, 4):
                 for b in range(a, 4 if not fld else 6):
-                    add('randint', t, (a, b), 18, 26)
+                    if not q or t == 'int' or a in (-2, 0):
+                        add('randint', t, (a, b), 18, 26)
         else:
             add('randint', t, (0, 2), 18, 26)
             add('randint', t, (0, 7), 18, 26)
@@ -417,7 +421,7 @@ def experiments(tier):
                 if n == 3:
                     add('sample', t, (('secret', pop_values(t, n)), k), 14, 20)
                 if t != 'fld8':
-                    add('sample', t, (('range', n), k), 12, 16)
+                    add('sample', t, (('range', n), k), 10, 16)
         if t != 'fld8':
             add('sample', t, (('range', 1, 6, 2), 2), 12, 16)
             add('sample', t, (('range', 5, 0, -1), 2), 10, 14)
@@ -695,6 +699,17 @@ def mp_experiments(tier):
             out += [('sample', t, (('range', 5), 3))]
         out += [('shuffle', t, (4, 'public')), ('shuffle', t, (3, 'secret')), ('shuffle', t, (3, 'rows'))]
         out += [('random_permutation', t, (4,)), ('random_derangement', t, (3,)), ('random_derangement', t, (pop_values(t, 4),))]
+    if tier == 'quick':
+        keep = ('random_unit_vector', 'randrange', 'choices', 'sample', 'shuffle', 'random_derangement')
+        seen = set()
+        slim = []
+        for e in out:
+            if e[1] in ('int', 'fld7') and e[0] != 'randint' and not (e[0] == 'random_unit_vector' and e[2][0] in (1, 2)):
+                slim.append(e)
+            elif e[0] in keep and (e[0], e[1]) not in seen:      # one experiment per function for fxp / fld8
+                seen.add((e[0], e[1]))
+                slim.append(e)
+        out = slim
     out += [('random', 'fxp', ()), ('uniform', 'fxp', (1, 2.5)), ('uniform', 'fxp', (2, 0.5))]
     if tier == 'thorough':
         out += [('random_unit_vector', t, (n,)) for t in TTAGS for n in (4, 7, 8)]
@@ -778,7 +793,7 @@ WEIGHT = {'random_derangement': 40, 'shuffle': 6, 'random_permutation': 6, 'samp
 def jobs(tier, seed):
     out = []
     exps = experiments(tier)
-    njobs = 24 if tier == 'quick' else 36
+    njobs = 10 if tier == 'quick' else 36
     bins = [[0, []] for _ in range(njobs)]
     for e in sorted(exps, key=lambda e: -WEIGHT[e[0]] * (3 if e[1] == 'fxp' else 1)):
         b = min(bins, key=lambda b: b[0])
@@ -788,15 +803,15 @@ def jobs(tier, seed):
         if es:
             out.append(dict(engine='tree', exps=es, tier=tier, seed=seed))
     mpx = mp_experiments(tier)
+    q = tier == 'quick'
     for (m, t) in ((3, 1), (5, 2)):
         for no_prss in (False, True):
-            parts = 4
             for fxp in (False, True):
                 mine = [e for e in mpx if (e[1] == 'fxp') == fxp]
-                for p in range(parts if not fxp else max(1, parts // 2)):
-                    es = mine[p::parts if not fxp else max(1, parts // 2)]
-                    job = dict(engine='mp', m=m, t=t, no_prss=no_prss, part=0, parts=1, tier=tier, seed=seed, exps=es,
-                               reps=1 if tier == 'quick' else 3, patterns=('seeded',) if fxp else ('seeded', 'zero', 'max'))
+                parts = 1 if q else (2 if fxp else 4)
+                for p in range(parts):
+                    job = dict(engine='mp', m=m, t=t, no_prss=no_prss, part=0, parts=1, tier=tier, seed=seed, exps=mine[p::parts],
+                               reps=1 if q else 3, patterns=('seeded',) if fxp else ('seeded', 'max') if q else ('seeded', 'zero', 'max'))
                     if fxp:
                         job['k'] = 30
                     out.append(job)
